@@ -127,7 +127,7 @@ def text_env(reg, c, mod, universe):
     def seq_eq_from(a, b, k):
         return tuple(a)[k:] == tuple(b)[k:] and (len(a) == len(b) or (k >= len(a) and k >= len(b) and len(a) == len(b)))
     env.update(forall=forall, exists=exists, implies=lambda a, b: (not a) or b, unit=lambda x: (x,), EMPTY=(),
-               old=lambda x: x, ite=lambda c_, a, b: a if c_ else b, seq_eq_from=seq_eq_from)
+               old=lambda x: x, rev=lambda s_: tuple(reversed(tuple(s_))), ite=lambda c_, a, b: a if c_ else b, seq_eq_from=seq_eq_from)
     return env
 
 
